@@ -226,7 +226,12 @@ func (t *TrakBox) SetHEVCDescriptor(sampleDescriptorType string, vpsNALUs, spsNA
 	}
 	hvcC, err := CreateHvcC(vpsNALUs, spsNALUs, ppsNALUs, completePS, completePS, completePS, includePS)
 	if len(seiNALUs) > 0 {
-		hvcC.AddNaluArrays([]hevc.NaluArray{hevc.NewNaluArray(completePS, hevc.NALU_SEI_PREFIX, seiNALUs)})
+		// like the parameter sets, the SEI NAL units are copied: the caller may re-use its buffers
+		seiCopies := make([][]byte, len(seiNALUs))
+		for i, nalu := range seiNALUs {
+			seiCopies[i] = append([]byte{}, nalu...)
+		}
+		hvcC.AddNaluArrays([]hevc.NaluArray{hevc.NewNaluArray(completePS, hevc.NALU_SEI_PREFIX, seiCopies)})
 	}
 	if err != nil {
 		return err
